@@ -115,6 +115,10 @@ type aprWrite struct {
 	dropped    bool                                // ... while the write had no outcome
 	afterDrop  []string                            // what was observed for it after that
 	ack        bool
+	chg        bool // applying the payload is known to change the data (a value no other write carries, an item not yet deleted)
+	acksSeen   int  // success results attributed to it (on the connection they were seen on)
+	acksRep    int
+	dataRep    int // 'applied' outcomes whose data change has been reported
 	t0         time.Time
 	msgs       map[int]*api.Message // callback index -> the message it was handed
 	presented  map[int]int
@@ -153,7 +157,8 @@ type aprWorld struct {
 	byData  map[*model.LoadControlLimitListDataType]*aprWrite
 	order   []*aprWrite
 	step    int
-	strange []string // observations that fit no write
+	lastDig [2]string // digest of each feature's data at the last observation
+	strange []string  // observations that fit no write
 }
 
 func (w *aprWorld) HandleEvent(p api.EventPayload) {
@@ -244,6 +249,7 @@ func newAprWorld(nCb, nPeers int) *aprWorld {
 	_ = spine.VerifSubscribeCore(w)
 	for p := 0; p < nPeers; p++ {
 		w.connect(p)
+		w.lastDig[p] = w.digest(p)
 	}
 	return w
 }
@@ -321,6 +327,9 @@ func (w *aprWorld) digest(p int) string {
 	return string(b)
 }
 
+// digestLocked: the same, callable with w.mu held (the digest does not touch the world's own state)
+func (w *aprWorld) digestLocked(p int) string { return w.digest(p) }
+
 // scan attributes the result datagrams written since the last call to their writes.
 func (w *aprWorld) scan() {
 	w.mu.Lock()
@@ -352,6 +361,7 @@ func (w *aprWorld) scan() {
 			switch {
 			case c0.ResultData.ErrorNumber == nil || *c0.ResultData.ErrorNumber == 0:
 				wr.successes++
+				wr.acksSeen++
 			case c0.ResultData.Description != nil && string(*c0.ResultData.Description) == aprTimeoutTx:
 				wr.outcomes = append(wr.outcomes, aprOutcome{"terr", w.step, at})
 				if wr.timeoutAt == 0 {
@@ -435,6 +445,13 @@ func (x *aprRun) observe(about *aprWrite, extra ...string) string {
 	x.w.mu.Lock()
 	defer x.w.mu.Unlock()
 	t := append([]string{}, extra...)
+	// the data of every feature now, against what it was at the last observation
+	var changed, explained [2]bool
+	for p := 0; p < x.w.nPeers; p++ {
+		d := x.w.digestLocked(p)
+		changed[p] = d != x.w.lastDig[p]
+		x.w.lastDig[p] = d
+	}
 	for _, wr := range x.w.order {
 		for wr.reported < len(wr.outcomes) {
 			o := wr.outcomes[wr.reported]
@@ -444,8 +461,26 @@ func (x *aprRun) observe(about *aprWrite, extra ...string) string {
 			if o.kind == "terr" {
 				wr.expired = true
 			}
-			t = append(t, fmt.Sprintf("%d/%d:%s", wr.epoch, wr.c, o.kind))
+			t = append(t, fmt.Sprintf("p%d.%d/%d:%s", wr.p, wr.epoch, wr.c, o.kind))
 			wr.reported++
+			if o.kind == "applied" {
+				// the data itself (not only the event): an applied write whose payload must change the data did
+				explained[wr.p] = true
+				if wr.chg && changed[wr.p] {
+					t = append(t, fmt.Sprintf("p%d.%d/%d:data", wr.p, wr.epoch, wr.c))
+				}
+			}
+		}
+		// success results, on the connection they were seen on (scan attributes a result to the write of that
+		// counter on the connection whose writer received it)
+		for wr.acksRep < wr.acksSeen {
+			t = append(t, fmt.Sprintf("p%d.%d/%d:ack", wr.p, wr.epoch, wr.c))
+			wr.acksRep++
+		}
+	}
+	for p := 0; p < x.w.nPeers; p++ {
+		if changed[p] && !explained[p] {
+			t = append(t, fmt.Sprintf("p%d:data-changed-without-apply", p))
 		}
 	}
 	sort.Strings(t)
@@ -716,13 +751,17 @@ func (x *aprRun) exec(op string) bool {
 		if w.conn[p] == nil || w.conn[p].closed || find(p, c) != nil || c == 0 {
 			return true // counters are unique per connection (precondition)
 		}
-		cmd, okShape := x.aprCmd(shape, c)
+		// the value a write carries is unique in the history (counter and connection), so that applying it must
+		// change the data; a delete changes it while the item is still there
+		delBefore := x.deletes
+		cmd, okShape := x.aprCmd(shape, c+100*w.conn[p].epoch)
 		if !okShape {
 			return true
 		}
+		chg := shape == "full" || shape == "pid" || shape == "psel" || shape == "pall" || (shape == "dsel" && delBefore < 12)
 		x.res.executed = append(x.res.executed, fmt.Sprintf("write %d %d %d %s", p, c, h.B2i(ack), shape))
 		w.step++
-		wr := &aprWrite{p: p, c: uint64(c), epoch: w.conn[p].epoch, shape: shape, ack: ack, msgs: map[int]*api.Message{}, presented: map[int]int{}, digAt: map[int]string{}}
+		wr := &aprWrite{p: p, c: uint64(c), epoch: w.conn[p].epoch, shape: shape, ack: ack, chg: chg, msgs: map[int]*api.Message{}, presented: map[int]int{}, digAt: map[int]string{}}
 		before := w.digest(p)
 		wr.digBefore = before
 		w.mu.Lock()
@@ -764,7 +803,7 @@ func (x *aprRun) exec(op string) bool {
 			x.res.fail("C12/data-changed-before-approval", fmt.Sprintf("the data of feature %d changed when %s arrived, before any verdict: %s", p, wr.name(), aprDiff(before, after)))
 		}
 		x.res.nWrites++
-		return x.compare(op, "write", x.observe(wr, fmt.Sprintf("pres=%d", pres)), fmt.Sprintf("arrive %d %d", p, c))
+		return x.compare(op, "write", x.observe(wr, fmt.Sprintf("pres=%d", pres)), fmt.Sprintf("arrive %d %d %d %d", p, c, h.B2i(ack), h.B2i(chg)))
 	case "verdict", "look", "oldverdict", "oldlook":
 		// verdict <p> <c> <cb> <a>   |   look <id> <p> <c> <cb> <a>
 		// oldverdict / oldlook: the same for the write that carried counter c on the peer's EARLIER connection (the
